@@ -100,6 +100,71 @@ def rule_b(ctx):
     ctx.ob(R, l1.qname, "distance = sum(mass_matrix_cells . transport_density(flux))", ok, str(am2.show()), l1.node)
 
 
+def rule_c(ctx):
+    R = "C05.c"
+    ctx.rule(R, "physical units of the OpenCV back end: the signature pairs the column index with the voxel size of matrix axis 1 and the row "
+             "index with the voxel size of matrix axis 0 (dx is the image's voxel_size in matrix order); the distance is rescaled by the "
+             "original sum times the cell volume prod(voxel_size); both images are turned into signatures with the same dx")
+    from ..algebra import NotPolynomial, Poly, ToPoly
+
+    m = ctx.model
+    EMD = "darsia.measure.emd"
+    ctx.consult(EMD)
+    f = m.func(EMD, "EMD._img_to_sig")
+    img, dx = f.params[1], f.params[2]
+    ctx.instance(R)
+    # names bound by unpacking dx, by position
+    comp = {}
+    for s in ast.walk(f.node):
+        if isinstance(s, ast.Assign) and isinstance(s.targets[0], ast.Tuple) and norm(s.value) == dx:
+            for i, e in enumerate(s.targets[0].elts):
+                if isinstance(e, ast.Name):
+                    comp[e.id] = i
+    ctx.need(len(comp) == 2, "EMD._img_to_sig: unpacking of dx into two components not found")
+    # loop variables over the two matrix axes
+    axis_of = {}
+    for l in ast.walk(f.node):
+        if isinstance(l, ast.For) and isinstance(l.target, ast.Name) and isinstance(l.iter, ast.Call) and norm(l.iter.func) == "range" and len(l.iter.args) == 1:
+            t = norm(l.iter.args[0])
+            if t == f"{img}.shape[0]":
+                axis_of[l.target.id] = 0
+            elif t == f"{img}.shape[1]":
+                axis_of[l.target.id] = 1
+    ctx.need(sorted(axis_of.values()) == [0, 1], "EMD._img_to_sig: loops over the two matrix axes not found")
+    lists = [n for n in ast.walk(f.node) if isinstance(n, ast.List) and len(n.elts) == 3 and isinstance(getattr(n, "_parent", None), ast.Call) and norm(n._parent.func) == "np.array"]
+    ctx.need(len(lists) == 1, "EMD._img_to_sig: signature row [weight, x, y] not found")
+
+    def atom(n):
+        if isinstance(n, ast.Name) and n.id in comp:
+            return f"dx[{comp[n.id]}]"
+        if isinstance(n, ast.Name) and n.id in axis_of:
+            return f"index{axis_of[n.id]}"
+        return None
+    try:
+        x = ToPoly(atomize=atom)(lists[0].elts[1])
+        y = ToPoly(atomize=atom)(lists[0].elts[2])
+    except NotPolynomial as e:
+        raise AnalysisError(f"EMD._img_to_sig: signature coordinates outside the polynomial language: {e}")
+    ctx.ob(R, f.qname, "x coordinate = column index * voxel size of matrix axis 1", x == Poly.atom("index1") * Poly.atom("dx[1]"), repr(x), lists[0])
+    ctx.ob(R, f.qname, "y coordinate = row index * voxel size of matrix axis 0", y == Poly.atom("index0") * Poly.atom("dx[0]"), repr(y), lists[0])
+    w = lists[0].elts[0]
+    ctx.ob(R, f.qname, "weight is the pixel value at (row, col)", {axis_of.get(x_.id) for x_ in ast.walk(w) if isinstance(x_, ast.Name) and x_.id in axis_of} == {0, 1}
+           and [axis_of[x_.id] for x_ in ast.walk(w) if isinstance(x_, ast.Name) and x_.id in axis_of][:2] == [0, 1], norm(w), lists[0])
+    c = m.func(EMD, "EMD.__call__")
+    am = AM(c)
+    ok = (am.has(c.node, "cell_volume = np.prod(preprocessed_img_1.voxel_size)") is not None
+          and am.has(c.node, "integral = self._sum(preprocessed_img_1)") is not None
+          and am.has(c.node, "dx = tuple(preprocessed_img_1.voxel_size)") is not None
+          and am.has(c.node, "sig_1 = self._img_to_sig(normalized_img_1, dx=dx, time_num=time_num)") is not None
+          and am.has(c.node, "sig_2 = self._img_to_sig(normalized_img_2, dx=dx, time_num=time_num)") is not None
+          and am.has(c.node, "rescaled_distance = np.multiply(dist, integral * cell_volume)") is not None)
+    ctx.ob(R, c.qname, "distance = cv2.EMD(sig_1, sig_2, L2) * original sum * prod(voxel_size), both signatures with the image's voxel_size", ok, str(am.show()), c.node)
+    l2 = [norm(k) for k in ast.walk(c.node) if isinstance(k, ast.Call) and norm(k.func) == "cv2.EMD"]
+    ctx.ob(R, c.qname, "cv2.EMD is evaluated with the Euclidean ground distance", len(l2) == 1 and l2[0].endswith(", cv2.DIST_L2)"), str(l2), c.node)
+    ctx.floor(R, 1)
+
+
 def run(ctx):
     rule_a(ctx)
     rule_b(ctx)
+    rule_c(ctx)
